@@ -4,14 +4,14 @@
    report_substream_open / _failure to a dead protocol: error.
    report_connection_closed: every live protocol is still served (all sends are awaited), the
      first error is returned at the end.
-   report_connection_established: the sends are polled one after the other in the order of the
-     protocol table; the FIRST error makes the function return, which drops the sends not yet
-     polled and the sends still waiting for room. So the protocols polled before the dead one
-     whose channel had room have been told "established"; the others have not; the caller
-     (Transport::accept) gives up and never starts the connection loop, so nobody is ever told
-     "closed" for this connection — finding F-C07b seen from the protocols.
-   The poll order is the iteration order of a HashMap: the input carries, as a bit mask, which
-   protocols precede the first dead one (the harness reads it off the same table).
+   report_connection_established (since fix 2c7c81a): a closed receiver is logged and SKIPPED,
+     every live protocol is served (the sends wait for room like any other), the result is Ok.
+     Before the fix the FIRST error made the function return, dropping the sends not yet polled
+     and those still waiting for room; Transport::accept then gave the connection up and nobody
+     was ever told "closed" for it (F-C07b seen from the protocols). That behaviour is kept as
+     `dstep_gen false` to pin the repair (C08_established_before_fix_refuted); its poll order is
+     the iteration order of a HashMap, carried by the input as a bit mask of the protocols that
+     precede the first dead one. The repaired function does not depend on the order.
    Definitions only (lemmas: ReportDeadProofs.v). *)
 From Coq Require Import List NArith Bool PeanoNat Lia.
 From V.Ts Require Import Report.
@@ -20,11 +20,11 @@ Open Scope N_scope.
 
 Inductive dop :=
 | DBase (o : rop)                  (* RSubOpen / RSubFail / RClosed / RDrain (REst goes through DEst) *)
-| DEst (c mask : N)                (* report_connection_established; mask: protocols polled before the first dead one *)
+| DEst (c mask : N)                (* report_connection_established; mask: only read by the pre-fix variant *)
 | DKill (p : N).                   (* protocol p drops its receiver *)
 
-(* d_gone: connections given up by Transport::accept after a failed "established" report — their
-   ProtocolSet is dropped, nothing is reported for them any more *)
+(* d_gone (pre-fix variant only): connections given up by Transport::accept after a failed
+   "established" report — their ProtocolSet is dropped, nothing is reported for them any more *)
 Record dst := mkD { d_s : rst; d_dead : list N; d_gone : list N }.
 Record dout := mkDO { do_code : N; do_got : list item; do_done : list (N * N) }.
 
@@ -54,7 +54,7 @@ Definition conn_of_dop (o : dop) : option N :=
   | _ => None
   end.
 
-Definition dstep0 (d : dst) (o : dop) : dst * dout :=
+Definition dstep0 (fixed : bool) (d : dst) (o : dop) : dst * dout :=
   let s := d_s d in
   let cap := r_cap s in
   match d_dead d with
@@ -78,6 +78,11 @@ Definition dstep0 (d : dst) (o : dop) : dst * dout :=
                 mkDO 0 [] [])
       | DEst c mask =>
           if busy s c then (d, mkDO 2 [] [])
+          else if fixed then
+            (* every live protocol is served, dead ones are skipped, the result is Ok *)
+            let s' := mkR cap (mapi (fun i ch => if is_dead d (N.of_nat i) then ch
+                                                 else send_one cap c (IEst c) ch) O (r_ch s)) in
+            (mkD s' (d_dead d) (d_gone d), mkDO (if busy s' c then 1 else 0) [] [])
           else
             (mkD (mkR cap (mapi (fun i ch => if N.testbit mask (N.of_nat i) && negb (is_dead d (N.of_nat i))
                                              then try_now cap (IEst c) ch else ch) O (r_ch s)))
@@ -104,14 +109,18 @@ Definition dstep0 (d : dst) (o : dop) : dst * dout :=
       end
   end.
 
-Definition dstep (d : dst) (o : dop) : dst * dout :=
+Definition dstep_gen (fixed : bool) (d : dst) (o : dop) : dst * dout :=
   match conn_of_dop o with
-  | Some c => if existsb (N.eqb c) (d_gone d) then (d, mkDO 2 [] []) else dstep0 d o
-  | None => dstep0 d o
+  | Some c => if existsb (N.eqb c) (d_gone d) then (d, mkDO 2 [] []) else dstep0 fixed d o
+  | None => dstep0 fixed d o
   end.
+Definition dstep := dstep_gen true.                (* the code as it is *)
+Definition dstep_before_fix := dstep_gen false.    (* the code before 2c7c81a *)
 
 Fixpoint drun (d : dst) (l : list dop) : list dout :=
   match l with [] => [] | o :: t => let '(d', r) := dstep d o in r :: drun d' t end.
+Fixpoint drun_before_fix (d : dst) (l : list dop) : list dout :=
+  match l with [] => [] | o :: t => let '(d', r) := dstep_before_fix d o in r :: drun_before_fix d' t end.
 Fixpoint dfinal (d : dst) (l : list dop) : dst :=
   match l with [] => d | o :: t => dfinal (fst (dstep d o)) t end.
 Definition dinit (nproto cap : nat) : dst := mkD (rinit nproto cap) [] [].
